@@ -176,10 +176,11 @@ func isErrNoController(err error) bool {
 // retryOnError will repeatedly call the given (error-returning) func in the
 // case that its response is non-nil and retryable (as determined by the
 // provided retryable func) up to the maximum number of tries permitted by
-// the admin client configuration
+// the admin client configuration. The first attempt is always made, whatever
+// Admin.Retry.Max is.
 func (ca *clusterAdmin) retryOnError(retryable func(error) bool, fn func() error) error {
 	var err error
-	for attempt := 0; attempt < ca.conf.Admin.Retry.Max; attempt++ {
+	for attempt := 0; attempt == 0 || attempt < ca.conf.Admin.Retry.Max; attempt++ {
 		err = fn()
 		if err == nil || !retryable(err) {
 			return err
